@@ -26,6 +26,9 @@ pub struct NodeCase {
     /// bytes of padding carried by every request (large requests fill the product's 8 KiB write buffer)
     #[serde(default)]
     pub pad: u16,
+    /// batching parameters (flush size, low/high flush interval): see `proxy_config_flush`
+    #[serde(default)]
+    pub flush: u8,
 }
 
 fn plan() -> impl Strategy<Value = ConnPlan> {
@@ -62,16 +65,29 @@ pub fn node_strategy() -> impl Strategy<Value = NodeCase> {
         prop_oneof![Just(50u16), Just(500u16), Just(3000u16)],
         0u8..2,
         prop_oneof![3 => Just(0u16), 1 => 1u16..200, 2 => 1000u16..4000],
+        0u8..5,
     )
-        .prop_map(|(conns, mut rest, bursts, batch, backend_timeout_ms, shapes, pad)| {
+        .prop_map(|(conns, mut rest, bursts, batch, backend_timeout_ms, shapes, pad, flush)| {
             // the tail plan must eventually let traffic through, or nothing is learned
             rest.refuse = false;
             rest.read_stall_after = None;
-            NodeCase { script: Script { conns, rest, shapes }, bursts, batch, backend_timeout_ms, pad }
+            NodeCase { script: Script { conns, rest, shapes }, bursts, batch, backend_timeout_ms, pad, flush }
         })
 }
 
 pub fn proxy_config(batch: u8, backend_conn_num: usize, backend_timeout: Duration) -> Arc<ServerProxyConfig> {
+    proxy_config_flush(batch, backend_conn_num, backend_timeout, 0)
+}
+
+/// `flush` selects the batching parameters: 0 = (4, 200 us, 600 us); otherwise flush size and intervals derived from it
+pub fn proxy_config_flush(batch: u8, backend_conn_num: usize, backend_timeout: Duration, flush: u8) -> Arc<ServerProxyConfig> {
+    let (flush_size, low_us, high_us) = match flush % 5 {
+        0 => (4usize, 200u64, 600u64),
+        1 => (1, 50, 100),
+        2 => (2, 1000, 5000),
+        3 => (64, 200, 600),
+        _ => (16, 20, 20000),
+    };
     Arc::new(ServerProxyConfig {
         address: "127.0.0.1:6000".into(),
         announce_address: "127.0.0.1:6000".into(),
@@ -89,9 +105,9 @@ pub fn proxy_config(batch: u8, backend_conn_num: usize, backend_timeout: Duratio
             1 => BatchStrategy::Fixed,
             _ => BatchStrategy::Dynamic,
         },
-        backend_flush_size: NonZeroUsize::new(4).expect("nz"),
-        backend_low_flush_interval: Duration::from_micros(200),
-        backend_high_flush_interval: Duration::from_micros(600),
+        backend_flush_size: NonZeroUsize::new(flush_size).expect("nz"),
+        backend_low_flush_interval: Duration::from_micros(low_us),
+        backend_high_flush_interval: Duration::from_micros(high_us),
         session_timeout: None,
         backend_timeout,
         password: None,
@@ -125,7 +141,7 @@ fn shape_name(v: &crate::engines::codec::RVal) -> &'static str {
 
 async fn run_node(case: &NodeCase, obs: &mut Obs) -> Result<(), Fail> {
     let be = ScriptedBackend::new(case.script.clone());
-    let config = proxy_config(case.batch, 1, Duration::from_millis(case.backend_timeout_ms as u64));
+    let config = proxy_config_flush(case.batch, 1, Duration::from_millis(case.backend_timeout_ms as u64), case.flush);
     let (node, fut) = BackendNode::new("127.0.0.1:7001".to_string(), Arc::new(ReplyCommitHandler), config, be.clone(), Arc::new(BatchStats::default()));
     let handle = tokio::spawn(fut);
     let mut receivers = vec![];
@@ -547,7 +563,7 @@ pub fn enumerated_cases() -> Vec<NodeCase> {
                         for second in seconds {
                             let mut conns = vec![first.clone()];
                             conns.extend(second);
-                            v.push(NodeCase { script: Script { conns, rest: clean.clone(), shapes: 0 }, bursts: bursts.clone(), batch, backend_timeout_ms: 500, pad: 0 });
+                            v.push(NodeCase { script: Script { conns, rest: clean.clone(), shapes: 0 }, bursts: bursts.clone(), batch, backend_timeout_ms: 500, pad: 0, flush: 0 });
                         }
                     }
                 }
@@ -559,7 +575,7 @@ pub fn enumerated_cases() -> Vec<NodeCase> {
 
 pub const RULE_ENUM: &str = "[enumerated] fixed pipelines (6 requests in one burst; 4+4 in two bursts) x every cut position of the first connection's reply byte stream (0..=total bytes) and every cut-after-request count x {disabled, fixed, dynamic} batching x 3 fragmentations x 2 coalescing factors x second connection {clean, refused once, cut again at 3 positions, cut on 5 consecutive connections}; same oracle as backend-node; exhaustive over this grid";
 
-pub const RULE_NODE: &str = "[backend-node] the real BackendNode/handle_backend with the real ReplyCommitHandler and real CmdCtx tasks over a scripted backend behind the ConnFactory seam (real RespCodec over an in-memory duplex byte stream): pipelines of up to ~60 requests with unique ids in generated bursts; per connection a generated plan: refuse, reply latency, byte-level fragmentation of the reply stream, coalescing of several replies into one write, stall after n requests (backend_timeout 50/500/3000 ms), cut after byte n of the reply stream / after request m, then the next connection's plan; batching in {disabled, fixed, dynamic}; oracle: every request resolves exactly once within bounded virtual time, a successful reply carries the request's own id, otherwise an error; the backend sees a request at most 4 times; non-trivial = a cut strictly inside the reply stream with requests on both sides, or fragmentation inside a packet";
+pub const RULE_NODE: &str = "[backend-node] the real BackendNode/handle_backend with the real ReplyCommitHandler and real CmdCtx tasks over a scripted backend behind the ConnFactory seam (real RespCodec over an in-memory duplex byte stream): pipelines of up to ~60 requests with unique ids in generated bursts; per connection a generated plan: refuse, reply latency, byte-level fragmentation of the reply stream, coalescing of several replies into one write, stall after n requests (backend_timeout 50/500/3000 ms), cut after byte n of the reply stream / after request m, then the next connection's plan; batching in {disabled, fixed, dynamic} with 5 settings of flush size (1..64) and flush intervals (20 us..20 ms); oracle: every request resolves exactly once within bounded virtual time, a successful reply carries the request's own id, otherwise an error; the backend sees a request at most 4 times; non-trivial = a cut strictly inside the reply stream with requests on both sides, or fragmentation inside a packet";
 pub const RULE_SESSION: &str = "[session] the full stack over loopback TCP: real handle_session -> Session -> ForwardHandler -> scripted backend (backend_conn_num 1..3); pipelined requests (backend GETs interleaved with locally answered PING/ECHO) written in generated fragments; oracle: reply k answers request k (own key / own echo / OK / an error for a failed backend exchange), counts equal; half of the cases run with a session_timeout of 2..4 s and a client that is silent for 0..30 ms after connecting: the connection must not be closed before the client has been silent for a full timeout (believed only after three failing attempts, real time); a quarter of the cases use a LAZY READER: small socket buffers, 9 KiB backend replies, the client pipelines everything and starts reading 150 ms later (the proxy's writes hit back-pressure); non-trivial = a cut or fragmentation";
 
 pub fn run(ctx: &Ctx, findings: &Findings) -> PropReport {
